@@ -1061,7 +1061,7 @@ class FormattedText:
         """
         prop = self.PROPS.get(char, None)
         if prop is None:
-            JMCValueError(f"Unknown code format '{char}'", self.token, self.tokenizer)
+            raise JMCValueError(f"Unknown code format '{char}'", self.token, self.tokenizer)
 
         if prop in {
             "dark_red",
